@@ -76,6 +76,10 @@ def tasks(tier, seed):
             T.append(('twogrid', Mf, Mc, qd, 1))
         if not quick:
             T.append(('twogrid', Mf, Mc, 'LU', 2))
+    # the same iteration with other node families on the levels (a left end node on the receiving level, none on the sending one, and so on)
+    for qts in (['LOBATTO', 'RADAU-RIGHT'], ['RADAU-LEFT', 'RADAU-RIGHT'], ['LOBATTO', 'GAUSS'], ['LOBATTO', 'LOBATTO'], ['RADAU-RIGHT', 'LOBATTO'], ['GAUSS', 'RADAU-LEFT']):
+        T.append(('twogrid', 3, 2, 'IE', 1, qts))
+        T.append(('twogrid', 3, 3, 'IE', 2, qts))
     # three levels with per-level sweep counts (middle level sweeps on the way down and up)
     for Ms, qd, ns in ([((3, 2, 2), 'LU', (1, 2, 1)), ((3, 2, 2), 'IE', (2, 1, 1)), ((3, 2, 2), 'LU', (1, 1, 1)), ((2, 2, 1), 'LU', (1, 1, 1)), ((3, 2), 'IE', (2, 1))] if quick else
                        [(Ms_, qd_, (a, b, 1)) for Ms_ in ((3, 2, 2), (3, 2, 1), (4, 3, 2), (2, 2, 2), (3, 3, 2)) for qd_ in ('LU', 'IE', 'MIN-SR-S') for a in (1, 2) for b in (1, 2, 3)]):
@@ -102,7 +106,7 @@ def run_task(rep, task):
     elif task[0] == 'defect':
         defect_case(rep, task[1], task[2], task[3])
     elif task[0] == 'twogrid':
-        twogrid_case(rep, task[1], task[2], task[3], task[4])
+        twogrid_case(rep, *task[1:])
     elif task[0] == 'massdefect':
         mass_defect_case(rep, task[1], task[2])
     elif task[0] == 'multigrid':
@@ -578,14 +582,14 @@ def float_mass_defect(Mf, Mc, vals):
 # ------------------------------------------------------------------------------------------------ (c) linear two-grid cycle through the controller
 
 
-def twogrid_case(rep, Mf, Mc, qd, nsweeps_fine):
+def twogrid_case(rep, Mf, Mc, qd, nsweeps_fine, qts=None):
     from pySDC.implementations.controller_classes.controller_nonMPI import controller_nonMPI
 
-    name = f'twogrid/M{Mf}-{Mc}/{qd}/ns{nsweeps_fine}'
+    name = f'twogrid/M{Mf}-{Mc}/{qd}/ns{nsweeps_fine}' + (f'/{"-".join(qts)}' if qts else '')
     lam = -1.25
     dtf = 0.25
     d = dict(problem_class=sp.LinProb, problem_params={'A': np.array([[lam]])}, sweeper_class=generic_implicit,
-             sweeper_params={'num_nodes': [Mf, Mc], 'quad_type': 'RADAU-RIGHT', 'QI': qd}, level_params={'dt': dtf, 'restol': -1, 'nsweeps': [nsweeps_fine, 1]},
+             sweeper_params={'num_nodes': [Mf, Mc], 'quad_type': (list(qts) if qts else 'RADAU-RIGHT'), 'QI': qd}, level_params={'dt': dtf, 'restol': -1, 'nsweeps': [nsweeps_fine, 1]},
              step_params={'maxiter': 3}, space_transfer_class=sp.Inject)
     c = Ctx()
     Ctx.cur = c
@@ -642,10 +646,10 @@ def twogrid_case(rep, Mf, Mc, qd, nsweeps_fine):
     if res == 'sat':
         rep.replayed += 1
         env = {str(v): float(model_value(model, v)) for v in Uv + [u0v]}
-        dev = float_twogrid(Mf, Mc, qd, nsweeps_fine, lam, dtf, env)
+        dev = float_twogrid(Mf, Mc, qd, nsweeps_fine, lam, dtf, env, qts)
         if dev > 1e-9:
             rep.violation(f'{PID}/two-grid-iteration/{qd}', f'{name}: real controller cycle deviates from the multigrid-in-time iteration by {dev:.3e}',
-                          {'task': ['twogrid', Mf, Mc, qd, nsweeps_fine], 'env': env, 'deviation': dev})
+                          {'task': ['twogrid', Mf, Mc, qd, nsweeps_fine, qts], 'env': env, 'deviation': dev})
         else:
             rep.unreproduced(name, {'env': env, 'float_deviation': dev})
     # sensitivity: wrong sign of tau in the specification
@@ -654,18 +658,18 @@ def twogrid_case(rep, Mf, Mc, qd, nsweeps_fine):
         defs2[n] = (Wc[n] - z * sum(rv(QDc[n + 1, j + 1]) * Wc[j] for j in range(Mc)) ==
                     u0v + z * sum((rv(Qc[n + 1, j + 1]) - rv(QDc[n + 1, j + 1])) * Uc[j] for j in range(Mc)) - tau[n])
     # (with a single coarse node the prolongation is a constant shift, which the IE fine sweep annihilates: (Q - QD) 1 = 0 -- no witness possible there)
-    if Mf != Mc and Mc >= 2:
+    if Mf != Mc and Mc >= 2 and not qts:  # (other node families: for some pairs the fine IE sweep annihilates the prolonged correction as well -- the witness is kept for the default family)
         res, _ = prove(goal, defs2 + box, timeout_ms=60000, name=f'{name}:mutated', kind='vacuity')
         rep.vac(f'{name}:wrong-tau-sign-refuted', res, 'sat')
     rep.sample({'case': name, 'free_variables': 'u0 and all fine node values in [-1,1]', 'tolerance': 1e-9}, limit=6)
 
 
-def float_twogrid(Mf, Mc, qd, nsf, lam, dtf, env):
+def float_twogrid(Mf, Mc, qd, nsf, lam, dtf, env, qts=None):
     from pySDC.implementations.controller_classes.controller_nonMPI import controller_nonMPI
     from harness import sweepspec as ss
 
     d = dict(problem_class=ss.FLin, problem_params={'A': np.array([[lam]])}, sweeper_class=generic_implicit,
-             sweeper_params={'num_nodes': [Mf, Mc], 'quad_type': 'RADAU-RIGHT', 'QI': qd}, level_params={'dt': dtf, 'restol': -1, 'nsweeps': [nsf, 1]},
+             sweeper_params={'num_nodes': [Mf, Mc], 'quad_type': (list(qts) if qts else 'RADAU-RIGHT'), 'QI': qd}, level_params={'dt': dtf, 'restol': -1, 'nsweeps': [nsf, 1]},
              step_params={'maxiter': 3}, space_transfer_class=FloatInjectT)
     ctl = controller_nonMPI(1, {'logger_level': 50, 'dump_setup': False}, d)
     S_ = ctl.MS[0]
@@ -922,7 +926,7 @@ def replay(path):
         print('REPRODUCED' if dev > 1e-11 else 'not reproduced')
         return 1 if dev > 1e-11 else 0
     else:
-        dev = float_twogrid(t[1], t[2], t[3], t[4], -1.25, 0.25, d['env'])
+        dev = float_twogrid(t[1], t[2], t[3], t[4], -1.25, 0.25, d['env'], t[5] if len(t) > 5 else None)
     print('deviation', dev)
     print('REPRODUCED' if dev > 1e-9 else 'not reproduced')
     return 1 if dev > 1e-9 else 0
